@@ -246,4 +246,100 @@ Section Remove.
       split. { intros y Hy. rewrite Eem. apply in_or_app. left. exact Hy. }
       split; intros; lia. }
   Qed.
+
+  (* ---------------------------------------------------------------- remove_min / remove_max *)
+  Lemma remove_min_spec : forall h (n : node), wfn L I h n -> min_vals L I n < n_vals n ->
+    exists m n', remove_min dflt L I h n = (m, n') /\ elements n = m :: elements n' /\ wfn L I h n'.
+  Proof.
+    induction h as [|h IH]; intros n W Hc; [exact (False_ind _ W)|].
+    destruct n as [vs|vs cs].
+    - apply (B7 wfn_leaf_inv) in W as [Eh Bd]. injection Eh as ->.
+      cbn [remove_min]. unf. destruct vs as [|v vs]; [cbn [length] in *; lia|].
+      exists v, (Leaf vs). split; [reflexivity|]. split; [reflexivity|].
+      apply (B7 wfn_leaf_intro). cbn [length] in *. lia.
+    - apply (B7 wfn_inode_inv) in W as (h' & Eh & Hn & Hl & Bd & Hf). injection Eh as <-.
+      assert (HP : PK h vs cs) by (split; assumption).
+      assert (H2 : 2 <= length vs) by (unf; lia).
+      assert (Hs : strong (Inode vs cs)) by (left; lia).
+      assert (exists vs1 cs1, PK h vs1 cs1 /\ 1 <= length vs1 /\ length vs - 1 <= length vs1 <= length vs /\
+                min_vals L I (nth 0 cs1 dnode) < n_vals (nth 0 cs1 dnode) /\
+                elements (Inode vs1 cs1) = elements (Inode vs cs) /\
+                remove_min dflt L I (S h) (Inode vs cs) =
+                (let '(m, c') := remove_min dflt L I h (nth 0 cs1 dnode) in (m, Inode vs1 (aset cs1 0 c'))))
+        as (vs1 & cs1 & HP1 & H1 & Hlen & Hmin & Eel & Eq).
+      { cbn [remove_min]. destruct (can_remove_from L I (nth 0 cs dnode)) eqn:E0.
+        - exists vs, cs. repeat split; auto; try lia. apply can_remove_true; auto.
+        - destruct (fatten_child_spec h vs cs 0 HP ltac:(lia) Hs E0)
+            as (vs1 & cs1 & i' & Ef & HP1 & Hi' & H1 & Hlen & Hmin & Eel & _ & Hz & _).
+          specialize (Hz eq_refl). subst i'.
+          exists vs1, cs1. do 5 (split; [assumption|]).
+          unfold fatten_child in Ef. unfold child in Ef. cbn [children] in Ef.
+          change (n_vals (Inode vs cs)) with (length vs) in Ef.
+          change (0 <? 0) with false in Ef. cbn [andb] in Ef. change (0 + 1) with 1 in Ef.
+          replace (0 <? length vs) with true in Ef by (symmetry; apply Nat.ltb_lt; lia).
+          replace (0 =? length vs) with false in Ef by (symmetry; apply Nat.eqb_neq; lia).
+          cbn [andb] in Ef.
+          destruct (can_remove_from L I (nth 1 cs dnode)) eqn:E1.
+          + apply (f_equal fst) in Ef. cbn [fst] in Ef. rewrite Ef. unfold child. cbn [children set_child]. reflexivity.
+          + apply (f_equal fst) in Ef. cbn [fst] in Ef. rewrite Ef. unfold child. cbn [children].
+            destruct (remove_min dflt L I h (nth 0 cs1 dnode)) as [m c']. rewrite plug_cons by lia. reflexivity. }
+      pose proof (B7 PK_child h vs1 cs1 0 HP1 ltac:(lia)) as W0.
+      destruct (IH _ W0 Hmin) as (m & c' & Erm & Eel' & Wc').
+      rewrite Eq, Erm. exists m, (Inode vs1 (aset cs1 0 c')). split; [reflexivity|].
+      assert (Hl1 : length cs1 = S (length vs1)) by (destruct HP1; assumption).
+      split.
+      + rewrite <- Eel. rewrite (B3 elements_aset vs1 cs1 0 c') by lia.
+        rewrite (B3 elements_split vs1 cs1 0) by lia. rewrite (B3 pre_0), Eel'. reflexivity.
+      + destruct (B7 PK_aset h vs1 cs1 0 c' HP1 ltac:(lia) Wc') as [Hl' Hf'].
+        apply (B7 wfn_inode_intro); auto. unf. lia.
+  Qed.
+
+  Lemma remove_max_spec : forall h (n : node), wfn L I h n -> min_vals L I n < n_vals n ->
+    exists m n', remove_max dflt L I h n = (m, n') /\ elements n = elements n' ++ [m] /\ wfn L I h n'.
+  Proof.
+    induction h as [|h IH]; intros n W Hc; [exact (False_ind _ W)|].
+    destruct n as [vs|vs cs].
+    - apply (B7 wfn_leaf_inv) in W as [Eh Bd]. injection Eh as ->.
+      cbn [remove_max]. unf.
+      assert (Hne : vs <> []) by (destruct vs; [cbn [length] in *; lia|discriminate]).
+      exists (nth (length vs - 1) vs dflt), (Leaf (firstn (length vs - 1) vs)).
+      split; [reflexivity|]. split; [cbn [elements]; apply (B7 snoc_last); assumption|].
+      apply (B7 wfn_leaf_intro). rewrite firstn_length. lia.
+    - apply (B7 wfn_inode_inv) in W as (h' & Eh & Hn & Hl & Bd & Hf). injection Eh as <-.
+      assert (HP : PK h vs cs) by (split; assumption).
+      assert (H2 : 2 <= length vs) by (unf; lia).
+      assert (Hs : strong (Inode vs cs)) by (left; lia).
+      assert (exists vs1 cs1, PK h vs1 cs1 /\ 1 <= length vs1 /\ length vs - 1 <= length vs1 <= length vs /\
+                min_vals L I (nth (length vs1) cs1 dnode) < n_vals (nth (length vs1) cs1 dnode) /\
+                elements (Inode vs1 cs1) = elements (Inode vs cs) /\
+                remove_max dflt L I (S h) (Inode vs cs) =
+                (let '(m, c') := remove_max dflt L I h (nth (length vs1) cs1 dnode) in
+                 (m, Inode vs1 (aset cs1 (length vs1) c'))))
+        as (vs1 & cs1 & HP1 & H1 & Hlen & Hmin & Eel & Eq).
+      { cbn [remove_max]. destruct (can_remove_from L I (nth (length vs) cs dnode)) eqn:E0.
+        - exists vs, cs. repeat split; auto; try lia. apply can_remove_true; auto.
+        - destruct (fatten_child_spec h vs cs (length vs) HP ltac:(lia) Hs E0)
+            as (vs1 & cs1 & i' & Ef & HP1 & Hi' & H1 & Hlen & Hmin & Eel & _ & _ & Hz).
+          specialize (Hz eq_refl). subst i'.
+          exists vs1, cs1. do 5 (split; [assumption|]).
+          unfold fatten_child in Ef. unfold child in Ef. cbn [children] in Ef.
+          change (n_vals (Inode vs cs)) with (length vs) in Ef.
+          replace (0 <? length vs) with true in Ef by (symmetry; apply Nat.ltb_lt; lia).
+          rewrite Nat.ltb_irrefl, Nat.eqb_refl in Ef. cbn [andb] in Ef.
+          destruct (can_remove_from L I (nth (length vs - 1) cs dnode)) eqn:E1.
+          + pose proof (f_equal snd Ef) as Ez. apply (f_equal fst) in Ef. cbn [fst snd] in Ef, Ez. rewrite Ef. rewrite Ez. unfold child. cbn [children set_child]. reflexivity.
+          + pose proof (f_equal snd Ef) as Ez. apply (f_equal fst) in Ef. cbn [fst snd] in Ef, Ez. rewrite Ef. rewrite Ez. unfold child. cbn [children].
+            destruct (remove_max dflt L I h (nth (length vs1) cs1 dnode)) as [m c']. rewrite plug_cons by lia.
+            reflexivity. }
+      pose proof (B7 PK_child h vs1 cs1 (length vs1) HP1 ltac:(lia)) as W0.
+      destruct (IH _ W0 Hmin) as (m & c' & Erm & Eel' & Wc').
+      rewrite Eq, Erm. exists m, (Inode vs1 (aset cs1 (length vs1) c')). split; [reflexivity|].
+      assert (Hl1 : length cs1 = S (length vs1)) by (destruct HP1; assumption).
+      split.
+      + rewrite <- Eel. rewrite (B3 elements_aset vs1 cs1 (length vs1) c') by lia.
+        rewrite (B3 elements_split vs1 cs1 (length vs1)) by lia.
+        rewrite (B3 post_end) by lia. rewrite Eel', !app_nil_r, app_assoc. reflexivity.
+      + destruct (B7 PK_aset h vs1 cs1 (length vs1) c' HP1 ltac:(lia) Wc') as [Hl' Hf'].
+        apply (B7 wfn_inode_intro); auto. unf. lia.
+  Qed.
 End Remove.
